@@ -68,7 +68,10 @@ class Prop(G.InputPropBase):
             data = b"".join(G.item_bytes(it) for it in items)
             how = ("whole", "bytes", "random")[i % 3]
             run = G.chunkings(rng, data, how)
-            if how != "whole" and i % 2:
+            if i % 7 == 3:
+                run = G.with_setup(rng, run)
+                how += "+setup"
+            elif how != "whole" and i % 2:
                 run = G.with_ops(rng, run, 0.15 if how == "bytes" else 0.5)
                 how += "+output-ops"
             if i % 5 == 0 and how != "whole":
